@@ -76,9 +76,10 @@ def step(ctx, params):
         mats = bm.LBFGSB_MATRICES(n)
         before = {f: getattr(mats, f) for f in mats.__slots__}
         xk_a, gk_a = np.array(xk), np.array(gk)
-        ret = bm.update_lbfgs_matrices(xk_a, gk_a, X, G, maxcor, mats, False, float(EPS))
+        force = bool(params.get("force"))
+        ret = bm.update_lbfgs_matrices(xk_a, gk_a, X, G, maxcor, mats, force, float(EPS))
         accepted_spec = curvature_ok(Xs[-1], Gs[-1], xk, gk)
-        was_accepted = len(tokens) > 0
+        was_accepted = len(X) > 0 and X[-1] is xk_a
         info = dict(n=n, maxcor=maxcor, len=length)
         # accepted <=> curvature test
         ctx.check("accepted_iff_curvature", z3.Not(accepted_spec) if was_accepted else accepted_spec, info=info)
@@ -102,9 +103,10 @@ def step(ctx, params):
         else:
             if len(X) != length or len(G) != length or not all(a is b for a, b in zip(X, Xarr)) or not all(a is b for a, b in zip(G, Garr)):
                 problems.append("rejected update changed the deques")
-            for f in mats.__slots__:
-                if getattr(ret, f) is not before[f]:
-                    problems.append("rejected update changed mats.%s" % f)
+            if not force:
+                for f in mats.__slots__:
+                    if getattr(ret, f) is not before[f]:
+                        problems.append("rejected update changed mats.%s" % f)
         if ret is not mats:
             problems.append("a different matrices object was returned")
         ctx.check("deque_discipline", bool(problems), info=dict(info, problems=problems))
@@ -115,6 +117,21 @@ def step(ctx, params):
             viol.append(z3.Not(curvature_ok(XL[k].data, GL[k].data, XL[k + 1].data, GL[k + 1].data)))
         ctx.check("stored_pairs_satisfy_curvature", zor(viol), info=info)
         ctx.check("at_most_maxcor_pairs", len(X) - 1 > maxcor, info=info)
+        if force and not was_accepted and length >= 2:
+            # forced rebuild after a rejected candidate: the matrices describe the STORED pairs only
+            XL2, GL2 = list(X), list(G)
+            s2 = [a - b for a, b in zip(XL2[-1].data, XL2[-2].data)]
+            y2 = [a - b for a, b in zip(GL2[-1].data, GL2[-2].data)]
+            ctx.check("theta_is_yy_over_sy", ne(SReal.of(ret.theta), dot(y2, y2) / dot(s2, y2)), info=dict(info, forced=True))
+            sv = []
+            if ret.S.shape != (n, length - 1):
+                sv.append(True)
+            else:
+                for k in range(length - 1):
+                    for i in range(n):
+                        sv.append(ne(ret.S[i, k], XL2[k + 1].data[i] - XL2[k].data[i]))
+                        sv.append(ne(ret.Y[i, k], GL2[k + 1].data[i] - GL2[k].data[i]))
+            ctx.check("S_Y_are_deque_differences", zor(sv), info=dict(info, forced=True))
         if was_accepted:
             # theta of the newest pair
             s = [a - b for a, b in zip(xk, Xs[-1])]
@@ -249,7 +266,7 @@ def real_case(params, witness):
                     X=[[f(witness.get("X%d_%d" % (k, i), "0")) for i in range(n)] for k in range(L)],
                     G=[[f(witness.get("G%d_%d" % (k, i), "0")) for i in range(n)] for k in range(L)],
                     xk=[f(witness.get("xk_%d" % i, "0")) for i in range(n)],
-                    gk=[f(witness.get("gk_%d" % i, "0")) for i in range(n)])
+                    gk=[f(witness.get("gk_%d" % i, "0")) for i in range(n)], force=bool(params.get("force")))
     n, m, nsym = params["n"], params["m"], params.get("nsym", params["m"])
     S0, Y0 = common.memory_instance(n, m - nsym, params.get("seed", 0), params.get("which", 1)) if m - nsym > 0 else ([], [])
     f = common.fr_to_float
